@@ -43,6 +43,8 @@ def matMul (A B : Mat) (ncolsB : Nat) : Mat := A.map fun r => (transpose B ncols
 def tMulVec (A : Mat) (ncols : Nat) (v : Vec) : Vec := (transpose A ncols).map (dot · v)
 /-- append a column -/
 def appendCol (A : Mat) (v : Vec) : Mat := List.zipWith (fun r x => r ++ [x]) A v
+/-- prepend a column -/
+def prependCol (v : Vec) (A : Mat) : Mat := List.zipWith (fun x r => x :: r) v A
 /-- `numeric.blockdiag([A, B])` with explicit column counts -/
 def blockdiag (A : Mat) (ca : Nat) (B : Mat) (cb : Nat) : Mat :=
   A.map (· ++ zeros cb) ++ B.map (zeros ca ++ ·)
@@ -251,17 +253,23 @@ def EdgeRec.orthB (r : RefRec) (e : EdgeRec) : Bool :=
 def EdgeRec.outwardB (r : RefRec) (e : EdgeRec) : Bool :=
   decide (0 < dot (vsub (e.apply e.refCentroid) r.centroid) e.ext)
 
-/-- `det [linear | ext] = ± ext·ext` (minus iff `isflipped`) and `ext·ext = det (linearᵀ linear)`: `|ext|` is the measure
-scaling `sqrt_abs_det_gram(linear)` of the edge map and `isflipped` is the orientation of `[linear | outward]` -/
+/-- `det [ext | linear] = ± ext·ext` (minus iff `isflipped`) and `ext·ext = det (linearᵀ linear)`: `|ext|` is the measure
+scaling `sqrt_abs_det_gram(linear)` of the edge map and `isflipped` is the orientation of `[outward | linear]`.
+(The docstring of `numeric.ext` writes `det(arr;ex)`; with the extension vector as *last* column the sign is `(-1)^(n-1)`,
+so the uniform statement for n = 1, 2, 3 has it as first column.) -/
 def EdgeRec.measureB (r : RefRec) (e : EdgeRec) : Bool :=
   let ee := dot e.ext e.ext
-  det r.ndims (appendCol e.linear e.ext) == (if e.isflipped then -ee else ee)
+  det r.ndims (prependCol e.ext e.linear) == (if e.isflipped then -ee else ee)
   && ee == det (r.ndims - 1) (gram e.linear (r.ndims - 1))
   && decide (0 < ee)
 
-/-- `Σ_edges ext · |edge_ref| = 0` and `Σ_edges (x_c · ext) |edge_ref| = ndims · volume` (`Reference.check_edges`) -/
+/-- `Σ_edges ext · |edge_ref| = 0` and `Σ_edges (x_c ⊗ ext) |edge_ref| = volume · 1`, in particular
+`Σ_edges (x_c · ext) |edge_ref| = ndims · volume` (`Reference.check_edges` tests the diagonal) -/
 def RefRec.closedB (r : RefRec) : Bool :=
   isZeroVec (r.edges.foldr (fun e acc => vadd (vscale e.refVolume e.ext) acc) (zeros r.ndims))
+  && (List.range r.ndims).all (fun i => (List.range r.ndims).all fun j =>
+      vsum (r.edges.map fun e => (e.apply e.refCentroid).getD j 0 * e.ext.getD i 0 * e.refVolume)
+        == (if i = j then r.volume else 0))
   && vsum (r.edges.map fun e => dot (e.apply e.refCentroid) e.ext * e.refVolume) == (r.ndims : Rat) * r.volume
 
 def absRat (q : Rat) : Rat := if q < 0 then -q else q
@@ -306,7 +314,7 @@ def CompRec.okB (c : CompRec) : Bool :=
   m.linear == c.linear && m.offset == c.offset && m.isflipped == c.isflipped && m.ext == some c.ext
   && isZeroVec (tMulVec c.linear (c.ndims - 1) c.ext)
   && decide (0 < dot (vsub c.edgeCentroid c.childCentroid) c.ext)
-  && det c.ndims (appendCol c.linear c.ext) == (if c.isflipped then -(dot c.ext c.ext) else dot c.ext c.ext)
+  && det c.ndims (prependCol c.ext c.linear) == (if c.isflipped then -(dot c.ext c.ext) else dot c.ext c.ext)
 
 /-- one `swapup` / `swapdown` pair: `edge ∘ child₁ = child₂ ∘ edge₂` -/
 structure SwapRec where
